@@ -32,12 +32,13 @@ TIERS = {
     "quick": dict(mc_cfg="MC_Ledger_quick.cfg", mc_timeout=300,
                   batches=[(120, 10, "1", "default"), (30, 10, "2p64", "default"), (48, 8, "1", "sweep"),
                            (30, 12, "1", "multi"), (2, 8, "1", "featsweep"), (32, 8, "1", "impexp"),
-                           (24, 12, "1", "blocks"), (24, 12, "1", "strings")]),
+                           (24, 12, "1", "blocks"), (24, 12, "1", "strings"), (16, 11, "1", "directed")]),
     "thorough": dict(mc_cfg="MC_Ledger_thorough.cfg", mc_timeout=3000,
                      batches=[(1500, 12, "1", "default"), (300, 12, "2p53", "default"), (300, 12, "2p63", "default"),
                               (300, 12, "2p64", "default"), (300, 12, "1e30", "default"), (480, 10, "prime", "sweep"),
                               (400, 14, "1", "multi"), (16, 10, "1", "featsweep"), (400, 10, "1", "impexp"),
-                              (100, 10, "2p64", "impexp"), (300, 14, "1", "blocks"), (300, 12, "1", "strings")]),
+                              (100, 10, "2p64", "impexp"), (300, 14, "1", "blocks"), (300, 12, "1", "strings"), (64, 11, "1", "directed"),
+                              (32, 11, "2p64", "directed")]),
 }
 
 # outcome mismatches that no tagged predicate explains are attributed by operation kind
